@@ -952,6 +952,10 @@ impl QueryRouter {
                 };
 
                 shards.insert(sharder.shard(value));
+            } else if (len as i32) > 0 {
+                // Not a sharding key: skip over the value so the next
+                // parameter is read from the right place.
+                message_cursor.advance(cmp::min(len, message_cursor.remaining()));
             }
         }
 
